@@ -1,0 +1,20 @@
+//go:build verif
+
+package balancer
+
+// Contracts for govc (see /verif/DESIGN.md). Comment-only file: contributes no code.
+
+//@ func (r *RoundRobinSelector) Select
+//@   property C03 C06
+//@   requires allNonNil(endpoints)
+//@   modifies r.counter
+//@   loop 1 invariant len(routable) <= i$1
+//@   loop 1 invariant forall k int :: 0 <= k && k < len(routable) ==> isRoutable(routable[k].Status) && (exists j int :: 0 <= j && j < i$1 && routable[k] == endpoints[j])
+//@   loop 1 invariant forall j int :: 0 <= j && j < i$1 && isRoutable(endpoints[j].Status) ==> (exists k int :: 0 <= k && k < len(routable) && routable[k] == endpoints[j])
+//@   loop 1 invariant (forall j int :: 0 <= j && j < i$1 ==> isRoutable(endpoints[j].Status)) ==> len(routable) == i$1 && (forall k int :: 0 <= k && k < i$1 ==> routable[k] == endpoints[k])
+//@   ensures err == nil ==> member(res, endpoints) && isRoutable(res.Status)
+//@   ensures err != nil ==> noRoutable(endpoints)
+//@   ensures err == nil || res == nil
+//@   ensures err == nil <==> !noRoutable(endpoints)
+//@   ensures !noRoutable(endpoints) ==> r.counter == (old(r.counter) + 1) % 18446744073709551616
+//@   ensures len(endpoints) > 0 && (forall j int :: 0 <= j && j < len(endpoints) ==> isRoutable(endpoints[j].Status)) ==> err == nil && res == endpoints[old(r.counter) % len(endpoints)]
